@@ -174,7 +174,9 @@ def oracle(lines, blocks, drained=False):
             if e[0] == "arm":
                 last_arm_clock = int(e[3])
                 cur = max(cur, last_arm_clock)
-                if int(e[1]) < FLOOR * 1000:
+                if e[1] == "off":       # interpose.h: timerfd_settime with an all-zero it_value disarms the descriptor
+                    fail("floor", "step %d `%s`: timerfd_settime was handed a zero it_value (disarms the descriptor)" % (i, op))
+                elif int(e[1]) < FLOOR * 1000:
                     fail("floor", "step %d `%s`: timerfd armed for %s ns (< 100 us)" % (i, op, e[1]))
             elif e[0] == "added":
                 nm = int(e[1])
